@@ -152,6 +152,7 @@ func rangeEngine(c *runCtx) error {
 			lay.close()
 		}
 	}()
+	c.independent = true
 	exec := func(ops []string) {
 		for _, line := range ops {
 			o := parseOp(line)
